@@ -372,7 +372,7 @@ V('ix7-finite', ['C07'], PA,
 V('ix8-regex', ['C07'], 'yalafi/handlers.py',
   "numbers = re.compile(r'\\s*(\\d+[.,]?\\d*|[.,]\\d+)')", "numbers = re.compile(r'\\s*(\\d+[.,]?\\d*|[.,]\\d*)')", 'IX8')
 V('ix8-no-guard', ['C07'], 'yalafi/handlers.py',
-  "    nargs = int(nargs) if nargs.isdecimal() else 0", "    nargs = int(nargs) if nargs else 0", 'IX8')
+  "    if nargs.isdecimal():\n", "    if nargs:\n", 'IX8')
 V('ix9-inline-lang', ['C07'], T2,
   "    main_lang = opts.lang or ''\n    ml = utils.get_txt_pos_ml(toks, main_lang, parms)\n    if opts.repl and main_lang in ml:\n        for part in ml[main_lang]:",
   "    ml = utils.get_txt_pos_ml(toks, opts.lang, parms)\n    if opts.repl and opts.lang in ml:\n        for part in ml[opts.lang]:", 'IX9')
@@ -781,3 +781,18 @@ V('fd1-unchecked', ['C18'], 'yalafi/shell/shell.py',
   "    tex = fp.read()\n", "    tex = fp.read()\n    tex = tex[:tex.find('\\\\end{document}')]\n", 'FD1')
 V('fd1-neutral-checked', ['C18'], 'yalafi/shell/shell.py',
   "    tex = fp.read()\n", "    tex = fp.read()\n    end_doc = tex.find('\\\\end{document}')\n    if end_doc >= 0 and False:\n        tex = tex[:end_doc]\n", [])
+V('dt2-verb-late', ['C08', 'C10'], MP,
+  "            elif type(tok) is defs.VerbatimToken:\n                # \\verb text is data: do not compare it with stop tokens etc.\n                out.append(defs.MathElemToken(tok.pos, tok.txt))\n            elif tok.txt in toks_stop:\n                buf.next()\n                break\n",
+  "            elif tok.txt in toks_stop:\n                buf.next()\n                break\n            elif type(tok) is defs.VerbatimToken:\n                out.append(defs.MathElemToken(tok.pos, tok.txt))\n", 'DT2')
+V('to1-label', ['C05'], 'yalafi/packages/cleveref.py',
+  "        Macro(parms, '\\\\label', args='OA', repl=''),", "        Macro(parms, '\\\\label', args='AO', repl=''),", 'TO1')
+V('sbl3-direct', ['C08', 'C09'], 'yalafi/handlers.py',
+  "    file = parser.get_text_expanded(args[0])", "    file = parser.get_text_direct(args[0])", 'SBL3')
+V('uk8-reformat', ['C19'], 'yalafi/shell/gentext.py',
+  "    if not unkn.split():\n        return\n    out.write('=== ' + file + ' ===\\n')\n    out.write(unkn)", "    names = unkn.split()\n    if not names:\n        return\n    out.write('=== ' + file + ' ===\\n')\n    out.write('\\n'.join(names) + '\\n')", 'UK8')
+V('ns1-shlex', ['C20'], 'yalafi/shell/shell.py',
+  "import argparse\n", "import argparse\nimport shlex\n", 'NS1')
+V('ord1-early-lines', ['C16'], 'yalafi/shell/genhtml.py',
+  "        if h.unsure or h.end <= h.beg:\n            h.end = h.beg + 1\n", "        h.endlin = tex.count('\\n', 0, h.end) + 1\n        if h.unsure or h.end <= h.beg:\n            h.end = h.beg + 1\n", 'ORD1')
+VARIANTS.append(dict(id='guard1-nopop', props=['C09'], expect=['GUARD1'], edits=[
+  ('yalafi/handlers.py', "    extracted = parser.extracted\n    parser.extracted = []\n    try:\n        toks = parser.parser_work(latex)", "    if file in parser.unknowns:\n        utils.fatal('recursive')\n    parser.unknowns.append(file)\n    extracted = parser.extracted\n    parser.extracted = []\n    try:\n        toks = parser.parser_work(latex)")]))
